@@ -1,0 +1,45 @@
+//go:build verif
+
+// Contracts for package datacodec, read by /verif's govc (see /verif/DESIGN.md). Comment-only.
+package datacodec
+
+// The size handed to an injector factory reaches reflect.MakeSlice / reflect.MakeMapWithSize.
+
+//@ func readCollection
+//@   prop C04
+//@   calls injectorFactory requires nonneg: arg0 >= 0
+//@   calls injectorFactory ensures nonnil: result1 == nil ==> result0 != nil
+
+//@ func readMap
+//@   prop C04
+//@   calls injectorFactory requires nonneg: arg0 >= 0
+//@   calls injectorFactory ensures nonnil: result1 == nil ==> result0 != nil
+
+//@ func readTuple
+//@   prop C04
+//@   requires codecs: forall k int :: 0 <= k && k < len(elementCodecs) ==> elementCodecs[k] != nil
+
+//@ func readUdt
+//@   prop C04
+//@   requires names: len(fieldNames) == len(fieldCodecs)
+//@   requires codecs: forall k int :: 0 <= k && k < len(fieldCodecs) ==> fieldCodecs[k] != nil
+
+//@ func adjustSliceLength
+//@   prop C04
+//@   requires nonneg: targetSize >= 0
+
+//@ func (*collectionCodec).createInjector$1
+//@   prop C04
+//@   requires nonneg: size >= 0
+
+//@ func (*collectionCodec).createInjector$2
+//@   prop C04
+//@   requires nonneg: size >= 0
+
+//@ func (*collectionCodec).createInjector$3
+//@   prop C04
+//@   requires nonneg: size >= 0
+
+//@ func (*mapCodec).createInjector$1
+//@   prop C04
+//@   requires nonneg: size >= 0
